@@ -60,6 +60,16 @@ func (g *Gen) smt(o *Obl) string {
 			fmt.Fprintf(&sb, "(define-fun %s () %s %s)\n", d.Name, d.Sort, d.Body)
 		}
 	}
+	var axs []string
+	for sym := range g.axioms {
+		if need[sym] && !o.Cover { // definitions are conservative: satisfiability checks do not need them
+			axs = append(axs, sym)
+		}
+	}
+	sort.Strings(axs)
+	for _, sym := range axs {
+		fmt.Fprintf(&sb, "(assert %s)\n", g.axioms[sym])
+	}
 	fmt.Fprintf(&sb, "(assert %s)\n", o.Pc)
 	if !o.Cover {
 		fmt.Fprintf(&sb, "(assert (not %s))\n", o.Goal)
